@@ -153,6 +153,23 @@ fn e2e_scenario(seed: u64, i: usize, tier: Tier) -> Outcome {
         }
     }
     let dist = if reroute.is_some() { wcfg.topo.distance() } else { dist };
+    // TCP: local port collisions (re-issued probes keep their ttl); IPv4 ICMP / UDP: transient
+    // send failures, persistently for one ttl in some worlds (a hop whose probes only ever failed
+    // still carries its own ttl)
+    if cell.protocol == trippy_core::Protocol::Tcp && r.chance(1, 3) {
+        wcfg.faults.bind_in_use_pct = r.range(5, 40) as u8;
+    }
+    if reroute.is_none() && crate::e2e::is_probe_failed_errno(cell.protocol, cell.v6, !cell.unprivileged, crate::world::Op::SendTo, libc::EHOSTUNREACH) && r.chance(1, 4) {
+        if r.chance(1, 2) {
+            for _ in 0..r.range(1, 8) {
+                wcfg.faults.at_op.insert((crate::world::Op::SendTo, r.below(100) as usize), crate::world::Fault { errno: libc::EHOSTUNREACH });
+            }
+        } else {
+            // every send for one particular ttl fails, in every round
+            let k = tcfg.first_ttl + r.below(u64::from(tcfg.max_ttl - tcfg.first_ttl) + 1) as u8;
+            wcfg.faults.send_fails_for_ttl = Some((k, libc::EHOSTUNREACH));
+        }
+    }
     // outages: whole rounds in which nothing answers, after rounds in which something did
     if reroute.is_none() && r.chance(1, 3) {
         let from = r.range(1, 5) * 40_000_000;
